@@ -429,3 +429,13 @@ _extend("C16", "whole-number prior arguments are written as Python ints in half 
 _extend("C18", "half of the models with a rule-assigned species carry a second rule listed before the rule it reads from.")
 _extend("C19", "one statistical splitter case in four uses amounts one ulp below a whole number.")
 _extend("C20", "the starting time is offset from the multiples of the grid step by 0, 1/8, 1/4 or 1/2 of a step.")
+
+# wave 6
+_extend("C07", "every second model with a rule has a time-reading rule that assigns a parameter and is listed AFTER the species "
+               "rule that reads the parameter (declared value = the rule's value at t = 0); half of those models declare more "
+               "parameters than species.")
+_extend("C12", "one delayed reaction in four has no delayed reactants and no delayed products (it keeps its delay type and "
+               "parameters through the round trip).")
+_extend("C14", "a Hill law whose only recorded fault is the literal `n` is evaluated further with n read as the Hill exponent; "
+               "every Hill law must equal the model's rate or exactly the recorded deviation (K for K^n) - any other value is "
+               "reported under its own signature.")
